@@ -60,7 +60,7 @@ FromLog(j) ==
                    nosigned |-> r.nosigned, powers |-> r.powers, total |-> r.total, actual |-> r.actual]],
     res    |-> [k \in {<<r.o, r.t, r.id>> : r \in Range(j.res)} |->
                   LET r == Pick({x \in Range(j.res) : <<x.o, x.t, x.id>> = k}) IN
-                  [stage |-> r.stage, sig |-> r.sig, resp |-> r.resp, rhash |-> r.rhash]],
+                  [stage |-> r.stage, sig |-> r.sig, resp |-> r.resp, rhash |-> r.rhash, ver |-> r.ver, idok |-> r.idok]],
     chal   |-> {<<r.o, r.t, r.id>> : r \in Range(j.chal)},
     halted |-> j.halted ]
 
